@@ -480,6 +480,17 @@ class CallMixin:
                     self.emit(s_k, fx, "CONSTMAP", node, obj=recv, key=key, hit=True, kval=k, val=v[k], how="get")
                     yield "ok", const(v[k]), s_k
                 return
+        if name == "pop" and isinstance(recv, tuple) and recv[:1] == ("call",) and isinstance(recv[1], tuple) and recv[1][:1] == ("builtin",) \
+                and recv[1][1] in ("list", "sorted") and recv[2]:
+            # keys = list(container) ... keys.pop(): some element of that snapshot (IndexError once it is used up)
+            el = self._iter_elem(recv, st.uid())
+            if not (isinstance(el, tuple) and el[:1] == ("unk",)):
+                if st.facts.get(("truthy", recv)) is not True:
+                    s2 = st.fork()
+                    yield "raise", self.exc(s2, "IndexError", "pop from empty list"), s2
+                self.emit(st, fx, "SNAPPOP", node, snap=recv, elem=el)
+                yield "ok", el, st
+                return
         if isinstance(recv, tuple) and recv[0] == "accum":
             for a in (args or [NONE]):
                 self.emit(st, fx, "ACCUM", node, acc=recv, how=name, src=a)
